@@ -26,7 +26,7 @@ BY_ID = {}
 
 class Case:
     def __init__(self, prop, name, fn, symbols, mode="real", tier="quick", spare=24, max_paths=300, timeout=60.0,
-                 functions=(), kind="proof", explore_time=300.0, expect=None, assumptions=(), oracle=True, also=(), bound="", share=False):
+                 functions=(), kind="proof", explore_time=300.0, expect=None, assumptions=(), oracle=True, also=(), bound="", share=False, xcheck=True):
         self.prop = prop
         self.props = (prop,) + tuple(also)
         self.name = name
@@ -44,6 +44,7 @@ class Case:
         self.assumptions = list(assumptions)
         self.oracle = oracle
         self.bound = bound
+        self.xcheck = xcheck  # engine cross-check applicable (not for transcendental leaves evaluated at concrete angles)
         self.share = share  # obligations without an explicit prop count for every property in `also`
         self.id = "%s/%s" % (prop, name)
 
